@@ -57,7 +57,27 @@ fn memcap_skip(parts: &[&Vec<u8>]) -> bool {
     parts.iter().any(|p| p.len() == 1 && p[0] == 128) && parts.iter().any(|p| p.len() >= 4)
 }
 
+/// count results at the edges of the number encoding: OP_SIZE of items of boundary lengths and OP_DEPTH on boundary depths
+/// (a count whose top magnitude byte is exactly 0x80 needs a separate sign byte: 128, 32768, ...)
+fn count_edges(out: &mut Vec<String>) {
+    for len in [0usize, 1, 75, 76, 127, 128, 129, 255, 256, 257, 32767, 32768, 32769, 33023, 33024, 65535, 65536] {
+        let mut sc = vec![];
+        push_with(&mut sc, &vec![0x5au8; len], 0);
+        sc.push(0x82);                                  // OP_SIZE
+        for flags in [0u32, 1] { out.push(eval_req("c01", &sc, flags, None, None, "~", "~", "t:t:t")); }
+        let mut sc2 = sc.clone(); sc2.extend_from_slice(&[0x8b, 0x8c]);      // OP_1ADD OP_1SUB on the count
+        out.push(eval_req("c01", &sc2, 0, None, None, "~", "~", "t:t:t"));
+    }
+    for depth in [0usize, 1, 16, 17, 126, 127, 128, 129, 255, 256, 257] {
+        let mut sc = vec![];
+        for i in 0..depth { sc.push(0x51 + (i % 16) as u8); }
+        sc.push(0x74);                                  // OP_DEPTH
+        for flags in [0u32, 1] { out.push(eval_req("c01", &sc, flags, None, None, "~", "~", "t:t:t")); }
+    }
+}
+
 pub fn gen(tier: &str, rng: &mut Rng, out: &mut Vec<String>) {
+    count_edges(out);
     let thorough = tier == "thorough";
     // (a) grammar scripts, both rule sets
     let n = if thorough { 200_000 } else { 12_000 };
